@@ -190,6 +190,15 @@ def mon_inputs_latest(scn, run):
     return out
 
 
+def _jsonish(x):
+    """tuples and lists are the same thing in the logs (values are recorded as deep JSON-shaped copies)"""
+    import json
+    try:
+        return json.loads(json.dumps(x, default=lambda o: list(o) if isinstance(o, (set, frozenset, tuple)) else repr(o)))
+    except (TypeError, ValueError):
+        return x
+
+
 def mon_change_detection(run):
     """C02: Output.changes == ports whose value differs from the previous report"""
     out = []
@@ -204,7 +213,7 @@ def mon_change_detection(run):
         elif e["k"] == "produce" and e["msg"]["m"] == "Output" and e["msg"]["source"] in pending:
             c = e["msg"]["source"]
             exp = pending.pop(c)
-            if e["msg"]["changes"] != exp:
+            if _jsonish(e["msg"]["changes"]) != _jsonish(exp):
                 out.append(V("output-changes-wrong", f"{c}: Output.changes {e['msg']['changes']} expected {exp}", comp=c))
     return out
 
